@@ -100,9 +100,10 @@ class FitProperties(dict):
                     if ("optimal_fit_edelta" in self and
                         self["optimal_fit_edelta"] and
                         "range_x" in self and
-                            self["range_x"][1] == value[1]):
-                        # Ignore changes in range[0] (no reset), but
-                        # remember the requested range.
+                            max(self["range_x"]) == max(value)):
+                        # Ignore changes of the lower bound (no reset;
+                        # the upper bound used for fitting is the maximum
+                        # of the range), but remember the requested range.
                         super(FitProperties, self).__setitem__(
                             key, copy.deepcopy(value))
                         return
@@ -538,7 +539,8 @@ class IndentationFitter(object):
             if (key == "range_x" and
                     self.fp["optimal_fit_edelta"]):
                 # range only partly if "optimal_fit_edelta" is True
-                hashlist.append(self.fp["range_x"][1])
+                # (the upper bound used for fitting)
+                hashlist.append(max(self.fp["range_x"]))
             elif (key == "optimal_fit_num_samples" and
                   not self.fp["optimal_fit_edelta"]):
                 # ignore number of samples if optimal fit is not used
